@@ -28,7 +28,15 @@ def render_arg(style, a):
 TIGHT = {"a": "", "p": "|q", "s": ";q", "n": "&&q", "o": "||q"}
 
 
-def mk(env, p, args, ctx, meta, tight=False):
+FEATURE = {"i": ("", " < inp"), "o": ("", " > out"), "d": ("", " 2>&1"), "e": ("X=1 ", "")}
+
+
+def mk(env, p, args, ctx, meta, tight=False, feature=None):
+    if feature:
+        pre, post = FEATURE[feature]
+        line = pre + p + "".join(" " + render_arg(s, a) for s, a in args) + post
+        af = ",".join(s + ":" + hx(a) for s, a in args) or "[]"
+        return Case("plan1", [env, hx(line), "c01", hx(p), af, "a", feature], meta)
     line = p + "".join(" " + render_arg(s, a) for s, a in args) + (TIGHT if tight else CTX)[ctx]
     af = ",".join(s + ":" + hx(a) for s, a in args) or "[]"
     return Case("plan1", [env, hx(line), "c01", hx(p), af, ctx] + (["t"] if tight else []), meta)
@@ -51,6 +59,11 @@ def generate(tier, rng):
             for args in positions(style, a):
                 for ctx in CTX:
                     cases.append(mk(ENV, "prog", args, ctx, {"gen": "e", "style": style, "a": a}))
+            # the argument under test next to ANOTHER feature of the line: a real input / output redirection, a dup, an assignment prefix
+            if len(a) <= 1 or tier != "quick":
+                for feat in "iode":
+                    for args in positions(style, a):
+                        cases.append(mk(ENV, "prog", args, "a", {"gen": "ef", "style": style, "a": a}, feature=feat))
             # the operator written without blanks, directly after the argument under test
             for ctx in "psno":
                 cases.append(mk(ENV, "prog", [("s", "x"), (style, a)], ctx, {"gen": "et", "style": style, "a": a}, tight=True))
@@ -68,7 +81,10 @@ def generate(tier, rng):
             a = gens.rand_string(r, ALPHA + ["b", "1", "-", ".", "/", "日本"], 0, 6)
             args.append((style, a))
         p = r.choice(["prog", "./argv", "a-b_c.d", "prog", "/bin/x1"])
-        cases.append(mk(ENV, p, args, r.choice("apsno"), {"gen": "g"}, tight=r.chance(1, 3)))
+        if r.chance(1, 4):
+            cases.append(mk(ENV, p, args, "a", {"gen": "g"}, feature=r.choice("iode")))
+        else:
+            cases.append(mk(ENV, p, args, r.choice("apsno"), {"gen": "g"}, tight=r.chance(1, 3)))
     return cases
 
 
